@@ -593,7 +593,10 @@ impl GlobalInferenceCtx<'_> {
 
                 for MemberLiteral { name, value } in members.into_iter() {
                     let Some(name) = name else { continue };
-                    let new_member_ty = member_tys[&name.name];
+                    // a member that the struct doesn't have has already been reported
+                    let Some(&new_member_ty) = member_tys.get(&name.name) else {
+                        continue;
+                    };
 
                     self.replace_weak_tys(value, new_member_ty);
                 }
@@ -4732,6 +4735,9 @@ impl GlobalInferenceCtx<'_> {
                                     Some(ComptimeResult::Integer { num, .. }) => {
                                         Ty::ConcreteArray { size: num, sub_ty }.into()
                                     }
+                                    // the constant has no value at all (`size : usize : ;`),
+                                    // which has already been reported as a syntax error
+                                    None => Ty::Unknown.into(),
                                     actual_data => {
                                         panic!(
                                             "{} #{} already checked that the constant was an integer, and yet the data is {actual_data:?}",
